@@ -97,8 +97,22 @@ func applyApart(s *common.Spec, rng *rand.Rand, all bool) {
 // the deneb activation cap differs from the churn limit, committee parameters differ from each other, the
 // vector lengths are not powers of two, the withdrawal sweep is larger than or does not divide the registry
 // size, the epoch-valued waiting times are pairwise different; the fork schedule always leads through all
-// five forks within 7 epochs. SLOTS_PER_EPOCH is 8, sometimes 6. ID "apart:<seed>".
+// five forks within 7 epochs (8 or 12 for the seeds with a historical-root period of 2 or 3, see applyApart3).
+// SLOTS_PER_EPOCH is 8, sometimes 6. ID "apart:<seed>" (round 3 added applyApart3; apart0:<seed> is the round-2 meaning).
 func Apart(seed int64) *Config {
+	c := apartBase(seed)
+	applyApart3(c.Spec, rand.New(rand.NewSource(seed^0x3a9a_47)), true)
+	return c
+}
+
+// Apart0 is apart:<seed> as it was before round 3 (without the applyApart3 ingredients). ID "apart0:<seed>".
+func Apart0(seed int64) *Config {
+	c := apartBase(seed)
+	c.ID = fmt.Sprintf("apart0:%d", seed)
+	return c
+}
+
+func apartBase(seed int64) *Config {
 	rng := rand.New(rand.NewSource(seed ^ 0x0a9a_47))
 	s := cloneSpec(configs.Minimal)
 	setForks(s, allForkSchedules[rng.Intn(len(allForkSchedules))])
@@ -108,6 +122,109 @@ func Apart(seed int64) *Config {
 	s.EJECTION_BALANCE = 31_000_000_000
 	applyApart(s, rng, true)
 	return &Config{ID: fmt.Sprintf("apart:%d", seed), Spec: s}
+}
+
+// applyApart3 (round 3) separates constants that still coincided or divided each other in every generated
+// configuration. all=true: apart: (each ingredient is still only drawn for part of the seeds where it costs
+// chain length); false: rand2: (each with probability 1/2 on top).
+//
+//   - SLOTS_PER_HISTORICAL_ROOT that is NOT a multiple of SLOTS_PER_EPOCH (about half of the seeds): mostly 15
+//     with 8 / 11 with 6 slots per epoch (period floor(SPHR/SPE) = 1: a historical root / summary every epoch,
+//     hence in every fork, any fork schedule); sometimes 20 with 8 or 14 with 6 (period 2, fork schedule 2,4,6,8)
+//     and rarely 20 with 6 (period 3, fork schedule 3,6,9,12), so that every fork's epoch processing crosses
+//     a multiple of the period (deneb then starts at epoch 8 / 12: run such chains for 10 / 15 epochs). The vector still holds all block
+//     roots an includable attestation can refer to (>= 2*SPE-1 slots back).
+//   - MAX_EFFECTIVE_BALANCE of 16 or 64 ETH (two thirds of the seeds), EJECTION_BALANCE one ETH below; the
+//     generator then makes half of the new-validator deposits exceed the cap.
+//   - MAX_BLOBS_PER_BLOCK of 7, 9 or 12 with MAX_BLOB_COMMITMENTS_PER_BLOCK 16 (half of the seeds): blocks carry
+//     up to that many commitments (more than the published 6).
+//   - EPOCHS_PER_ETH1_VOTING_PERIOD * SLOTS_PER_EPOCH does not divide SLOTS_PER_HISTORICAL_ROOT;
+//     EPOCHS_PER_SLASHINGS_VECTOR != EPOCHS_PER_HISTORICAL_VECTOR.
+//   - every electra preset / config constant differs from the phase0..deneb constant of the same unit
+//     (MIN_ACTIVATION_BALANCE != MAX_EFFECTIVE_BALANCE, MAX_ATTESTATIONS_ELECTRA != MAX_ATTESTATIONS, ...).
+func applyApart3(s *common.Spec, rng *rand.Rand, all bool) {
+	use := func() bool { return all || rng.Intn(2) == 0 }
+	u := func(v uint64) view.Uint64View { return view.Uint64View(v) }
+	spe := uint64(s.SLOTS_PER_EPOCH)
+
+	if use() && rng.Intn(2) == 0 { // non-multiple historical root vector
+		switch r := rng.Intn(20); {
+		case r < 15: // period 1
+			s.SLOTS_PER_HISTORICAL_ROOT = common.Slot(2*spe - 1)
+		case r < 19: // period 2
+			if r%2 == 0 {
+				s.SLOTS_PER_EPOCH, spe, s.SLOTS_PER_HISTORICAL_ROOT = 8, 8, 20
+			} else {
+				s.SLOTS_PER_EPOCH, spe, s.SLOTS_PER_HISTORICAL_ROOT = 6, 6, 14
+			}
+			setForks(s, [4]common.Epoch{2, 4, 6, 8})
+		default: // period 3
+			s.SLOTS_PER_EPOCH, spe = 6, 6
+			s.SLOTS_PER_HISTORICAL_ROOT = 20
+			setForks(s, [4]common.Epoch{3, 6, 9, 12})
+		}
+	}
+	if use() && rng.Intn(3) > 0 { // effective balance cap away from 32 ETH
+		s.MAX_EFFECTIVE_BALANCE = common.Gwei([]uint64{16, 64}[rng.Intn(2)]) * gwei
+		s.EJECTION_BALANCE = s.MAX_EFFECTIVE_BALANCE - gwei
+	}
+	if use() && rng.Intn(2) == 0 { // more blobs than the published limit, still below the list limit
+		s.MAX_BLOBS_PER_BLOCK = u([]uint64{7, 9, 12}[rng.Intn(3)])
+		s.MAX_BLOB_COMMITMENTS_PER_BLOCK = 16
+	}
+	if use() {
+		sphr := uint64(s.SLOTS_PER_HISTORICAL_ROOT)
+		for sphr%(uint64(s.EPOCHS_PER_ETH1_VOTING_PERIOD)*spe) == 0 {
+			s.EPOCHS_PER_ETH1_VOTING_PERIOD++
+		}
+		if s.EPOCHS_PER_ETH1_VOTING_PERIOD == s.EPOCHS_PER_SYNC_COMMITTEE_PERIOD {
+			s.EPOCHS_PER_SYNC_COMMITTEE_PERIOD++
+		}
+		for s.EPOCHS_PER_SLASHINGS_VECTOR == s.EPOCHS_PER_HISTORICAL_VECTOR {
+			s.EPOCHS_PER_SLASHINGS_VECTOR += 2
+		}
+	}
+	if use() { // electra constants: never equal to the earlier constant of the same unit
+		if s.MIN_ACTIVATION_BALANCE == s.MAX_EFFECTIVE_BALANCE {
+			s.MIN_ACTIVATION_BALANCE = s.MAX_EFFECTIVE_BALANCE - 8*gwei
+		}
+		for s.MAX_EFFECTIVE_BALANCE_ELECTRA <= s.MAX_EFFECTIVE_BALANCE {
+			s.MAX_EFFECTIVE_BALANCE_ELECTRA *= 2
+		}
+		differ := func(x *view.Uint64View, others ...view.Uint64View) {
+			for again := true; again; {
+				again = false
+				for _, o := range others {
+					if *x == o {
+						*x++
+						again = true
+					}
+				}
+			}
+		}
+		differ(&s.MIN_SLASHING_PENALTY_QUOTIENT_ELECTRA, s.MIN_SLASHING_PENALTY_QUOTIENT, s.MIN_SLASHING_PENALTY_QUOTIENT_ALTAIR, s.MIN_SLASHING_PENALTY_QUOTIENT_BELLATRIX)
+		s.WHISTLEBLOWER_REWARD_QUOTIENT_ELECTRA = s.MIN_SLASHING_PENALTY_QUOTIENT_ELECTRA + 1024 // the published values coincide (4096)
+		differ(&s.WHISTLEBLOWER_REWARD_QUOTIENT_ELECTRA, s.WHISTLEBLOWER_REWARD_QUOTIENT, s.PROPOSER_REWARD_QUOTIENT)
+		differ(&s.MAX_ATTESTER_SLASHINGS_ELECTRA, s.MAX_ATTESTER_SLASHINGS)
+		differ(&s.MAX_ATTESTATIONS_ELECTRA, s.MAX_ATTESTATIONS)
+		limits := []view.Uint64View{s.MAX_PROPOSER_SLASHINGS, s.MAX_ATTESTER_SLASHINGS, s.MAX_ATTESTATIONS, s.MAX_DEPOSITS, s.MAX_VOLUNTARY_EXITS,
+			s.MAX_BLS_TO_EXECUTION_CHANGES, s.MAX_WITHDRAWALS_PER_PAYLOAD, s.MAX_ATTESTER_SLASHINGS_ELECTRA, s.MAX_ATTESTATIONS_ELECTRA}
+		s.MAX_DEPOSIT_REQUESTS_PER_PAYLOAD, s.MAX_WITHDRAWAL_REQUESTS_PER_PAYLOAD, s.MAX_CONSOLIDATION_REQUESTS_PER_PAYLOAD = 14, 15, 17
+		differ(&s.MAX_DEPOSIT_REQUESTS_PER_PAYLOAD, limits...)
+		limits = append(limits, s.MAX_DEPOSIT_REQUESTS_PER_PAYLOAD)
+		differ(&s.MAX_WITHDRAWAL_REQUESTS_PER_PAYLOAD, limits...)
+		limits = append(limits, s.MAX_WITHDRAWAL_REQUESTS_PER_PAYLOAD)
+		differ(&s.MAX_CONSOLIDATION_REQUESTS_PER_PAYLOAD, limits...)
+		differ(&s.MAX_PENDING_PARTIALS_PER_WITHDRAWALS_SWEEP, s.MAX_VALIDATORS_PER_WITHDRAWALS_SWEEP, s.MAX_WITHDRAWALS_PER_PAYLOAD)
+		differ(&s.MAX_PENDING_DEPOSITS_PER_EPOCH, s.MAX_DEPOSITS, s.MIN_PER_EPOCH_CHURN_LIMIT, s.MAX_PER_EPOCH_ACTIVATION_CHURN_LIMIT)
+		differ(&s.MAX_BLOBS_PER_BLOCK_ELECTRA, s.MAX_BLOBS_PER_BLOCK, s.MAX_BLOB_COMMITMENTS_PER_BLOCK)
+		differ(&s.MAX_BLOBS_PER_BLOCK_FULU, s.MAX_BLOBS_PER_BLOCK, s.MAX_BLOB_COMMITMENTS_PER_BLOCK, s.MAX_BLOBS_PER_BLOCK_ELECTRA)
+		// gwei-valued churn limits of electra vs the validator-count-valued ones cannot be confused by unit;
+		// keep them different from every balance constant anyway
+		for common.Gwei(s.MIN_PER_EPOCH_CHURN_LIMIT_ELECTRA) == s.MAX_EFFECTIVE_BALANCE || common.Gwei(s.MIN_PER_EPOCH_CHURN_LIMIT_ELECTRA) == s.MIN_ACTIVATION_BALANCE {
+			s.MIN_PER_EPOCH_CHURN_LIMIT_ELECTRA += view.Uint64View(8 * gwei)
+		}
+	}
 }
 
 // RandomConfig2 is RandomConfig(seed) with each ingredient of Apart applied with probability 1/2.
@@ -143,5 +260,26 @@ func Fast2(altair, bellatrix, capella, deneb common.Epoch) *Config {
 	c.Spec.EPOCHS_PER_ETH1_VOTING_PERIOD = 4
 	c.Spec.MAX_DEPOSITS = 3 // a small cap keeps a backlog of pending deposits
 	c.ID = "fast2@" + fmtEpochs([4]common.Epoch{altair, bellatrix, capella, deneb})
+	return c
+}
+
+// RandomConfig3 is rand2:<seed> with each round-3 ingredient (applyApart3) applied with probability 1/2 — except
+// the non-multiple historical root vector with a period above 1, which would need its own fork schedule.
+// ID "rand3:<seed>". (rand2:<seed> stays as it is.)
+func RandomConfig3(seed int64) *Config {
+	c := RandomConfig2(seed)
+	forks := ForkEpochs(c.Spec)
+	spe := c.Spec.SLOTS_PER_EPOCH
+	applyApart3(c.Spec, rand.New(rand.NewSource(seed^0x3a2d_3)), false)
+	if c.Spec.SLOTS_PER_EPOCH != spe || ForkEpochs(c.Spec) != forks {
+		// keep rand's own epoch length and schedule; fall back to the period-1 vector
+		c.Spec.SLOTS_PER_EPOCH = spe
+		setForks(c.Spec, forks)
+		c.Spec.SLOTS_PER_HISTORICAL_ROOT = 2*spe - 1
+		for uint64(c.Spec.SLOTS_PER_HISTORICAL_ROOT)%(uint64(c.Spec.EPOCHS_PER_ETH1_VOTING_PERIOD)*uint64(spe)) == 0 {
+			c.Spec.EPOCHS_PER_ETH1_VOTING_PERIOD++
+		}
+	}
+	c.ID = fmt.Sprintf("rand3:%d", seed)
 	return c
 }
